@@ -80,7 +80,7 @@ def table():
                     argerr.append(f"call {j} of the mapper got {v!r}, values = {values}")
                 env.effect(j)
                 if j < n and ent[j][0] == "raise":
-                    raise UserError(ent[j][1])
+                    raise k2.make_error(ent[j][1])
                 return env.new_source().observable
             if lazy_values:
                 class Values:
@@ -116,7 +116,7 @@ def table():
             def handler(e, src):
                 hlog.append((env.tag, e, src is ss[0]))
                 if raises:
-                    raise UserError(62)
+                    raise k2.make_error(62)
                 return env.new_source().observable
             return ss[0].pipe(ops.catch(handler))
         h = "(fun _ => Raise 62)" if raises else "(fun _ => Ok tt)"
@@ -171,7 +171,7 @@ def table():
             calls[0] += 1
             x = ent[j] if j < len(ent) else ("ok", False)
             if x[0] == "raise":
-                raise UserError(x[1])
+                raise k2.make_error(x[1])
             return x[1]
         op = ops.do_while if do else ops.while_do
         return dict(build=lambda env, ss: ss[0].pipe(op(cond)), reset=lambda: calls.__setitem__(0, 0),
@@ -232,7 +232,7 @@ def table():
                 calls[0] += 1
                 e = ent[j] if j < len(ent) else ("ok", None)
                 if e[0] == "raise":
-                    raise UserError(e[1])
+                    raise k2.make_error(e[1])
                 return env.new_source().observable
             if which == "flat_map":
                 return ss[0].pipe(ops.flat_map(mapper))
